@@ -112,6 +112,16 @@ def eval_doc(args):
     bad = []; check(data, root, {}, bad, attrs=True)
     if bad and bad[0][0] == KNOWN_B: return dict(doc=doc, ver=ver, known=KNOWN_B)
     if bad: return dict(doc=doc, ver=ver, problem=dict(path=bad[0][0], keys=bad[0][1], expected=bad[0][2]))
+    # the same document given as an lxml tree (its declarations are read off the nsmap of each node, not off parser events): the same data
+    try:
+        import lxml.etree as LET
+        # (an lxml tree does not keep a redundant redeclaration, so the data may spell the same names with other prefixes: the contract is the same one - every key resolves)
+        dl = s.decode(LET.fromstring(doc.encode()), validation='lax')[0]
+        bl = []; check(dl, root, {}, bl, attrs=True)
+        if bl and bl[0][0] == KNOWN_B: return dict(doc=doc, ver=ver, known=KNOWN_B)
+        if bl: return dict(doc=doc, ver=ver, problem=dict(source='lxml tree', path=bl[0][0], keys=bl[0][1], expected=bl[0][2]))
+    except ImportError: pass
+    except Exception as e: return dict(doc=doc, ver=ver, problem=f'decode of the lxml tree raised {type(e).__name__}: {e}')
     # user-supplied namespace maps that collide with the document's own declarations, alias them or cover them partly: the keys resolve with the user's map
     # overlaid by the declarations the data reports
     for um in ({'p': 'urn:v'}, {'p': 'urn:w', 'q': 'urn:u'}, {'z': 'urn:u'}, {'q': 'urn:w'}):       # (a user-supplied DEFAULT namespace cannot coexist with the no-namespace leaves of these documents: not judged)
@@ -192,7 +202,8 @@ def run(tier, seed, open_findings):
     while len(docs) < n:
         d = gen(rng, 3, {})
         if d.startswith('<p:n') or ' xmlns' in d.split('>')[0]: docs.append(d)
-    docs += ['<n xmlns="urn:u"><e:s xmlns:e="urn:s" plain="2">t</e:s></n>', '<n xmlns="urn:u" xmlns:p="urn:u" p:a="1"/>', '<n xmlns="urn:u"><c xmlns="">t</c></n>', '<n xmlns="urn:u"><n><c xmlns="">t</c></n><c xmlns="">u</c></n>', '<p:n xmlns:p="urn:u"><c>t</c></p:n>']
+    docs += ['<n xmlns="urn:u"><c xmlns="">t</c><c xmlns="">u</c></n>', '<p:n xmlns:p="urn:u"><p:n xmlns:q="urn:v"><q:n/></p:n><p:n xmlns:q="urn:v"><q:n/></p:n></p:n>',
+             '<n xmlns="urn:u"><e:s xmlns:e="urn:s" plain="2">t</e:s></n>', '<n xmlns="urn:u" xmlns:p="urn:u" p:a="1"/>', '<n xmlns="urn:u"><c xmlns="">t</c></n>', '<n xmlns="urn:u"><n><c xmlns="">t</c></n><c xmlns="">u</c></n>', '<p:n xmlns:p="urn:u"><c>t</c></p:n>']
     jobs = [(ver, d) for d in docs for ver in ('1.0', '1.1')]
     res = pmap(eval_doc, jobs)
     used = [r for r in res if r is not None]
